@@ -119,6 +119,29 @@ def check(ctx, world):
                 ctx.ob("Z6", "%s fingerprint covers %s" % (cname, k), ok,
                        "fingerprint hashes the encoding of params.%s" % k if ok else
                        "the fingerprint does not cover params.%s although the role uses it: state saved under a different %s seed restores silently" % (k, k))
+            # Z6-binding: the fingerprint must bind *which* element plays which role:
+            # each used element's encoding sits at a fixed position of the hashed concatenation,
+            # and exchanging two of them changes the fingerprint term.
+            from ..terms import subst
+            hashed = [x for x in subterms(g) if is_app(x, "H")]
+            parts = list(hashed[0].args[0].args) if len(hashed) == 1 and is_app(hashed[0].args[0], "cat") else []
+            for k in sorted(used):
+                enc = mk_app(".to_bytes", (pf2[k],))
+                ok = enc in parts or App("H", (enc,)) in parts
+                ctx.ob("Z6-binding", "%s fingerprint position of %s" % (cname, k), ok,
+                       "the encoding of params.%s is a field of its own, at a fixed position of the hashed concatenation" % k if ok else
+                       "the encoding of params.%s is not a positional field of the fingerprint (fields: %s): the fingerprint does not determine which element is %s"
+                       % (k, [show(p_, maxdepth=3) for p_ in parts], k))
+            ul = sorted(used)
+            for i in range(len(ul)):
+                for j in range(i + 1, len(ul)):
+                    a_, b_ = pf2[ul[i]], pf2[ul[j]]
+                    tmp = Sym("<swap>")
+                    swapped = subst(subst(subst(g, {a_: tmp}), {b_: a_}), {tmp: b_})
+                    ok = swapped != g
+                    ctx.ob("Z6-binding", "%s fingerprint under %s<->%s" % (cname, ul[i], ul[j]), ok,
+                           "exchanging %s and %s changes the fingerprint" % (ul[i], ul[j]) if ok else
+                           "the fingerprint is symmetric in %s and %s: state saved under parameters with the two elements exchanged restores silently" % (ul[i], ul[j]))
             dep = any(isinstance(x, Sym) and x.n == "G2" for x in subterms(g))
             ctx.ob("Z6-group", cname, dep, "fingerprint is computed from the reader's own group" if dep else
                    "fingerprint does not depend on the reader's params argument")
